@@ -91,9 +91,17 @@ def do_command(pt, cmd):
 
 
 # --------------------------------------------------------------------------- schedule independence (Engine B)
-def script_parent(kind, N, script, seed, display):
+def script_parent(kind, N, script, seed, display, unequal=False):
     def parent(PAR, out):
-        pt = PAR.ParallelTempering(make_chains(kind, N, seed, display))
+        chains = make_chains(kind, N, seed, display)
+        if unequal:
+            # the chains do not start with the same length (e.g. the cold chain was burned in first)
+            with contextlib.redirect_stdout(io.StringIO()):
+                for i, c in enumerate(chains):
+                    for _ in range(3 * (N - i) + (i % 2)):
+                        c.take_step()
+        out["len0"] = [c.chain_length for c in chains]
+        pt = PAR.ParallelTempering(chains)
         pt.rng = np.random.default_rng(seed)
         for cmd in script:
             do_command(pt, cmd)
@@ -132,7 +140,7 @@ def ev_schedules(case):
     kind, N, script, seed, display, cap = case["chains"], case["N"], case["script"], case["seed"], case["display"], case["capacity"]
     label = f"N={N}"
     fails, tags = [], set()
-    parent = script_parent(kind, N, script, seed, display)
+    parent = script_parent(kind, N, script, seed, display, unequal=case.get("unequal", False))
     conf = dict(case)
     traces = 0
     if case.get("engine", "learned") == "plain":
@@ -173,9 +181,9 @@ def ev_schedules(case):
             else:
                 if out["outcome"] not in r["finals"]:
                     raise HarnessError("serial schedule outcome not among explored finals")
-                want = 1 + expected_steps(script)
-                if any(L != want for L in out["lengths"]):
-                    fails.append(fail("advance/chains-not-advanced-by-requested-steps", f"lengths {out['lengths']} expected {want}", config=conf))
+                want = [l0 + expected_steps(script) for l0 in out["len0"]]
+                if list(out["lengths"]) != want:
+                    fails.append(fail("advance/chains-not-advanced-by-requested-steps", f"lengths {out['lengths']} expected {want} (initial {out['len0']})", config=conf))
                 if any(out["alive"]):
                     fails.append(fail("protocol/worker-alive-after-shutdown", f"{out['alive']}", config=conf))
     tags.add(f"{label}:cap={cap}:display={display}:states>{10 ** int(math.log10(max(r['states'], 1)))}")
@@ -461,6 +469,9 @@ def run(ck):
     for s in ([["steps1", "swap"], ["swap", "ret"]] if q else [["steps1", "swap"], ["swap", "steps1", "ret"], ["adv52"], ["swap", "swap"], ["ret", "ret", "steps2"]]):
         for N in (2, 3):
             cases.append(dict(chains="GibbsChain", N=N, script=s, seed=3 + seed, display=True, capacity=1, real=False, crosscheck=(N == 2 and len(s) == 2 and s[0] == "steps1")))
+    for s in (["steps2"], ["adv52"], ["steps1", "swap", "steps2"], ["adv52", "ret", "steps1"]):
+        for N in (2, 3):
+            cases.append(dict(chains="GibbsChain", N=N, script=s, seed=8 + seed, display=True, capacity=None, real=False, unequal=True))
     if not q:
         for L in (1, 2):
             for script in itertools.product(COMMANDS, repeat=L):
